@@ -1303,12 +1303,16 @@ static int write_numb(void *context, cif_value_tp *numb_value) {
     if (cif_value_is_quoted(numb_value) == CIF_QUOTED) {
         /* The value is quoted, so output the literal text value, quoted */
         result = write_char(context, numb_value, CIF_TRUE);
-    } else if (cif_value_get_text(numb_value, &text) == CIF_OK) {
+    } else if (cif_value_get_text(numb_value, &text) != CIF_OK) {
+        result = CIF_ERROR;
+    } else if (u_strlen(text) > LINE_LENGTH(context)) {
+        /* the text does not fit on any line: it can only be written as a (folded) text field */
+        free(text);
+        result = write_char(context, numb_value, CIF_TRUE);
+    } else {
         int32_t nchars = write_uliteral(context, text, -1, CIF_WRAP);
         free(text);
         result = ((nchars < 0) ? -nchars : ((nchars > 0) ? 0 : CIF_ERROR));
-    } else {
-        result = CIF_ERROR;
     }
 
     return result;
